@@ -223,9 +223,10 @@ def rule_tx(R):
     R.floor("tx/precheck", m, 5, "control / release enqueue sites")
 
 
-def rule_adv(R):
+def clause_connect_property(R, key):
     f = R.f
     call, hb, hcode = roles.handshake(f)
+    R.touch(hcode)
     ok = False
     for bb, j, s in hcode.assigns():
         rv = s["rv"]
@@ -236,8 +237,14 @@ def rule_adv(R):
             if inner is not None and not is_call(inner, "len"):
                 inner = peel(roles.expand_getter(f, inner))   # an accessor such as PacketReader::capacity()
             ok = v[0] == "cast" and inner is not None and is_call(inner, "len") and chain(peel(inner[3][0]))[1][-2:] == ["packet_reader", "buffer"]
-    R.ob("adv/connect-property", ok,
+    R.ob(key, ok,
          "CONNECT advertises Maximum Packet Size = length of the receive buffer", where=hb.span)
+
+
+def rule_adv(R):
+    f = R.f
+    call, hb, hcode = roles.handshake(f)
+    clause_connect_property(R, "adv/connect-property")
     n = 0
     for (b, bb, j, dst, rv, s, final) in f.field_stores(RUNTIME, "maximum_packet_size"):
         n += 1
@@ -250,6 +257,7 @@ def rule_adv(R):
              % (show(t), b.fn_name), where=s["span"])
     R.floor("adv/limit-writer", n, 1, "stores to maximum_packet_size")
     roles.clause_negotiated_per_connection(R, "adv", ("maximum_packet_size",))
+    roles.clause_connack_walk_complete(R, "adv/connack-walk-complete")
     arms = roles.connack_property_arms(f)
     a = arms.get("MaximumPacketSize")
     ok = a is not None and a["unconditional"] and any(v[0] == "agg" and v[3] == "Some" and chain(v[5][0])[1][-2:] == ["@MaximumPacketSize", "0"]
